@@ -9,6 +9,7 @@ import (
 	"archive/zip"
 	"bytes"
 	"crypto/x509"
+	"encoding/base64"
 	"encoding/binary"
 	"encoding/json"
 	"fmt"
@@ -16,7 +17,6 @@ import (
 	"os"
 	"path/filepath"
 	"regexp"
-	"encoding/base64"
 	"strings"
 
 	"github.com/rs/zerolog"
